@@ -166,7 +166,9 @@ PropSeen(C, p) == /\ p \in DOMAIN C.pods
                   /\ victims' = victims \cup {p}
                   /\ UNCHANGED tried
 
-PropEvict(C, p, t, ok) == /\ EvictAllowed(C, victims, tried, p, t)
+\* (the guards are written  = TRUE  so that TLC evaluates them as values; as action formulas their disjunctions
+\* would be split into exponentially many identical successor computations - EvictTrace does the same via Holds)
+PropEvict(C, p, t, ok) == /\ EvictAllowed(C, victims, tried, p, t) = TRUE
                           /\ tried' = tried \cup {p}
                           /\ victims' = IF ok THEN victims \cup {p} ELSE victims
 
@@ -180,10 +182,10 @@ PrOK(C, V, Tr) ==
   \A t \in TaskIds(C) :
      Covered(C, t, V) \/ \A x \in Rng(List(C, t)) :
                             x \in Tr \/ x \in V \/ C.pods[x].already \/ ~Useful(C, t, x, V)
-PropRet(C, released) == RetOK(C, victims, released) /\ PrOK(C, victims, tried) /\ UNCHANGED pvars
+PropRet(C, released) == (RetOK(C, victims, released) /\ PrOK(C, victims, tried)) = TRUE /\ UNCHANGED pvars
 
-\* stronger reading of (St), NOT used for verdicts (see README of proposed_fixes/C11 and the final report): the release
-\* of EVERY already-evicted candidate counts from the start, not only of those the loop has come across
+\* stronger reading of (St), NOT used for verdicts (see proposed_fixes/C11/README.md): the release of EVERY
+\* already-evicted candidate counts from the start, not only of those the loop has come across (MC_strict.cfg)
 AllAlready(C) == {p \in DOMAIN C.pods : C.pods[p].already /\ \E t \in TaskIds(C) : p \in Rng(List(C, t))}
 StStrict(C, V, t) == ~Covered(C, t, V \cup AllAlready(C))
 
